@@ -314,6 +314,15 @@ func TestVerifC03(t *testing.T) {
 				c.Declared = [][2]string{{"X-Trailer-A", "corpus-a"}, {"X-Trailer-B", "corpus-b"}}
 				c.Undeclared = nil
 			}
+			if i == 4 {
+				// a trailer section larger than any plausible read buffer on the way (one long value and many fields)
+				c.Method, c.Status, c.Interim, c.BodyLen, c.Framing, c.Chunks = "GET", 200, nil, 100, "chunked", []int{100}
+				c.Declared = [][2]string{{"X-Checksum", strings.Repeat("c", 1500)}}
+				c.Undeclared = nil
+				for k := 0; k < 24; k++ {
+					c.Undeclared = append(c.Undeclared, [2]string{fmt.Sprintf("X-Undeclared-%d", k), strings.Repeat("u", 60)})
+				}
+			}
 			if proto == "h1" && i == 3 {
 				// a response that takes longer than any plausible I/O deadline on the way: 11 s pause in mid-body, trailers after it
 				c.Method, c.Status, c.Interim, c.BodyLen, c.Framing, c.Chunks = "GET", 200, nil, 3000, "chunked", []int{1000, 1000, 1000}
